@@ -41,7 +41,12 @@ type c11Obs struct {
 	ScanShape string
 	ExpShape  string
 	ExpRes    string // "" (not run) | ok | err
+	HasPaste  bool
 }
+
+// expandPastes: run the MACRO/PASTE pass on documents that contain PASTE as well (c11-docs compares the result with the
+// specification's expanded tree; the edge replay of MC_C11 has undefined macros and leaves them alone)
+var expandPastes = false
 
 func treeShape(nn []*core.VerifNode, dropMacro bool) string {
 	var sb strings.Builder
@@ -100,7 +105,8 @@ func observeTree(text string) (o c11Obs) {
 	}
 	tree := c.VerifTree()
 	o.NNodes = countNodes(tree)
-	if je == nil && !strings.Contains(text, "PASTE") {
+	o.HasPaste = strings.Contains(text, "PASTE")
+	if je == nil && (!o.HasPaste || expandPastes) {
 		o.ScanShape = treeShape(tree, true)
 		if e := c.VerifExpand(); e != nil {
 			o.ExpRes = "err"
@@ -357,7 +363,9 @@ func c11Docs(args []string) *Result {
 			Blocks   []string `json:"blocks"`
 			Doc      []Tok    `json:"doc"`
 			Closures [][]Tok  `json:"closures"`
+			XShape   string   `json:"xshape"`
 		}
+		expandPastes = true
 		if err := json.Unmarshal([]byte(js), &cs); err != nil {
 			return err
 		}
@@ -365,6 +373,11 @@ func c11Docs(args []string) *Result {
 			text := renderTokens(toks, false, canon).text
 			o := observeTree(text)
 			res.Cases++
+			if o.HasPaste && cs.XShape != "-" && o.Res == "ok" && o.ExpRes == "err" {
+				res.mismatch("c11:paste-pass-rejects", "the MACRO/PASTE pass rejects a document whose in-place expansion is well nested: specification ["+cs.XShape+"]",
+					map[string]any{"kind": "c11-doc", "text": text, "blocks": cs.Blocks})
+				continue
+			}
 			if o.ExpRes != "ok" {
 				res.count("not-compared(" + o.Res + "/" + o.ExpRes + ")")
 				continue
@@ -373,6 +386,17 @@ func c11Docs(args []string) *Result {
 			if _, ok := distinct[o.ScanShape]; !ok {
 				distinct[o.ScanShape] = struct{}{}
 				res.Nontrivial++
+			}
+			if o.HasPaste {
+				// the expansion itself: the real pass against the specification's Expand (Macro.tla)
+				if cs.XShape != "-" {
+					res.count("compared-with-PASTE")
+					if got := strings.ReplaceAll(o.ExpShape, "HTTP-response-code", "RESP"); got != cs.XShape {
+						res.mismatch("c11:paste-pass-nesting", fmt.Sprintf("the MACRO/PASTE pass nests the pasted directives differently: specification [%s], code [%s]", cs.XShape, got),
+							map[string]any{"kind": "c11-doc", "text": text, "blocks": cs.Blocks})
+					}
+				}
+				continue
 			}
 			if o.ExpShape != o.ScanShape {
 				res.mismatch("c11:paste-pass-renests", fmt.Sprintf("the MACRO/PASTE pass re-nests the directives: scanned tree [%s], after the pass [%s]", o.ScanShape, o.ExpShape),
